@@ -100,3 +100,16 @@ package logic
 //@   ensures [C16.delin.ctx]     group.sdpCtx == nil && isnil(group.patpmt)
 //@   ensures [C16.delin.caches]  isnil(group.rtmpGopCache.VideoSeqHeader) && isnil(group.rtmpGopCache.AacSeqHeader) && isnil(group.rtmpGopCache.MetadataEnsureWithSetDataFrame) && group.rtmpGopCache.gopRingFirst == group.rtmpGopCache.gopRingLast && isnil(group.httpflvGopCache.VideoSeqHeader) && isnil(group.httpflvGopCache.AacSeqHeader) && group.httpflvGopCache.gopRingFirst == group.httpflvGopCache.gopRingLast
 //@ end
+
+// ---- C01: nothing duplicated — the subscriber being admitted is excluded from the flush of older data -------------
+// writev2RtmpSubSessions skips sessions that are still fresh, so the admitted session must still be fresh
+// while the merge writer is flushed on its behalf (it has just been sent the GOP cache, which already
+// contains what the merge buffer holds).
+//@ func (*Group).broadcastByRtmpMsg
+//@   props C01 C05
+//@   assert after "group.rtmpMergeWriter.Flush()"@1 [C01.fresh.flush] session.IsFresh
+//@ end
+
+//@ func (*Group).writev2RtmpSubSessions
+//@   props C01
+//@ end
